@@ -360,6 +360,15 @@ def replay_objects(program, con, f, node, values):
         out["object_args_terms"] = {p: enc(values[p]) for p in pos}
     except Exception:
         pass
+    # pre-state of what the contract lets the function modify (old["param.attr"]), and of the parameters themselves
+    old_state = {k: v for k, v in values.items()}
+    for m in con.modifies:
+        if "." in m and m.split(".", 1)[0] in values:
+            try:
+                old_state[m] = _copy.copy(getattr(values[m.split(".", 1)[0]], m.split(".", 1)[1]))
+            except Exception:
+                pass
+    values = dict(values, old=old_state)
     try:
         if con.requires is not None and not clause(con.requires):
             return {"reproduced": False, "error": "counter-model does not satisfy the executable precondition", **out}
@@ -510,6 +519,9 @@ def _run_one(ip, path, con, f, node, variant, vi):
         o = env.get(pname)
         if isinstance(o, SObj):
             ip.modifies_ok.add((o.oid, m.split(".", 1)[1] if "." in m else "*"))
+            held = o.attrs.get(m.split(".", 1)[1]) if "." in m else None
+            if held is not None and not isinstance(held, (Z, C)):
+                ip.modifies_ok.add(id(held))          # the container the attribute holds may be updated in place as well
         elif o is not None:
             if "." not in m and isinstance(o, Z):
                 # a parameter the function may modify (deeply): treated like a fresh deep copy inside the body
@@ -524,8 +536,13 @@ def _run_one(ip, path, con, f, node, variant, vi):
                 ip.modifies_ok.add(("zattr", o.t.get_id(), m.split(".", 1)[1]))
     if con.requires is not None:
         path.assume(clause_bool(ip, con.requires, env, f"{qn}#requires", mode="assume"))
+    def _snap(v):
+        from .sym import LList as _LL
+        if isinstance(v, _LL) and v.concrete:
+            return _LL(list(v.items), fresh=False)        # the container may be updated in place: the pre-state is a copy
+        return v
     old = LDict([(C(k), v) for k, v in env.items()] +
-                [(C(m), env[m.split(".", 1)[0]].attrs[m.split(".", 1)[1]]) for m in con.modifies
+                [(C(m), _snap(env[m.split(".", 1)[0]].attrs[m.split(".", 1)[1]])) for m in con.modifies
                  if "." in m and isinstance(env.get(m.split(".", 1)[0]), SObj) and m.split(".", 1)[1] in env[m.split(".", 1)[0]].attrs])
     ip.entry_env = dict(env)
     try:
